@@ -208,6 +208,69 @@ def _job(m, cfgname, which, n, msalt):
     return chk.out
 
 
+def delegation_by_terms(m, cfgname):
+    """P' -- bc_encrypt(state, lr) is the state's permutation applied to lr, and bc_init_state() is init_state(), decided on
+    values / terms rather than on the shape of the two one-line bodies.  Returns [(kind, rule, key, payload)]"""
+    chk = _Collect()
+    encs = find_fn(m, lambda f: f['crate'] == 'blowfish' and f.get('name') == 'encrypt' and 'impl_trait' not in f and
+                   f.get('impl_self', '').startswith('blowfish::Blowfish'))
+    with equiv.TermMode():
+        engine._INTERPS.clear()
+        I = engine.mk_interp(m, 20_000_000)
+        I.summaries = {f['path']: ('deep', 'bfenc') for f in encs}
+        key = '%s|Blowfish<BE>::bc_encrypt' % cfgname
+        f = [g for g in m.fns if g.get('name') == 'verif_root__blowfish__Blowfish__bc_encrypt']
+        if not f:
+            chk.fail_closed('P-pure-delegation', key, 'root for bc_encrypt not found')
+        else:
+            f = f[0]
+            st = State()
+            I.entry_state = st
+            self_ty = I.types[f['mir']['locals'][1]]['t']
+            I.fresh += 1
+            sobj = ('P', 'self', I.fresh)
+            st.mem[sobj] = I.top(self_ty, 'self')
+            I.entry_state = None
+            leaves = []
+            _leaf_terms(st.mem[sobj], leaves)
+            lr = Arr(f['mir']['locals'][2], [topint(32, False, T.sym('l', 32)), topint(32, False, T.sym('r', 32))])
+            status, r = engine.run(I, f['id'], [Ptr(sobj, (), None, None, None, None, False), lr], st)
+            d = T.op('mem', 0, *leaves) if all(x is not None for x in leaves) else None
+            want = [T.op('fn:bfenc#%d' % k, 32, d, lr.e[0].term, lr.e[1].term) for k in range(2)] if d is not None else None
+            got = [e.term for e in r.e] if status == 'ok' and isinstance(r, Arr) else None
+            after = []
+            _leaf_terms(st.mem[sobj], after)
+            if status != 'ok' or got is None or want is None:
+                chk.fail_closed('P-pure-delegation', key + '|run', 'bc_encrypt: %s %s' % (status, str(r)[:150]))
+            elif any(g is not w for g, w in zip(got, want)) or any(a is not b for a, b in zip(after, leaves)):
+                chk.violation('P-pure-delegation', key, 'Blowfish::bc_encrypt(lr) is not the current state\'s Blowfish permutation applied to lr with the state left unchanged: %s' % (
+                    T.first_diff(got[0], want[0]) if got[0] is not want[0] else 'second word / state differs'))
+            else:
+                chk.ok('P-pure-delegation', key, dict(fn='bc_encrypt', equals='encrypt(state, lr), state unchanged'))
+        # bc_init_state() == init_state()
+        key = '%s|Blowfish<BE>::bc_init_state' % cfgname
+        f = [g for g in m.fns if g.get('name') == 'verif_root__blowfish__Blowfish__bc_init_state']
+        init = find_fn(m, lambda g: g['crate'] == 'blowfish' and g.get('name') == 'init_state')
+        if not f or not init:
+            chk.fail_closed('P-pure-delegation', key, 'bc_init_state / init_state not found')
+        else:
+            st = State()
+            s1, a = engine.run(I, f[0]['id'], [], st)
+            ok = False
+            for g in init:
+                s2, b = engine.run(I, g['id'], [], State())
+                if s1 == 'ok' and s2 == 'ok' and getattr(a, 'ty', None) == getattr(b, 'ty', 0):
+                    la, lb = [], []
+                    _leaf_terms(a, la)
+                    _leaf_terms(b, lb)
+                    ok = len(la) == len(lb) and all(x is not None and x is y for x, y in zip(la, lb))
+            if ok:
+                chk.ok('P-pure-delegation', key, dict(fn='bc_init_state', equals='init_state() (1042 constant words)'))
+            else:
+                chk.violation('P-pure-delegation', key, 'Blowfish::bc_init_state() does not return the initial constants of init_state()')
+    return chk.out
+
+
 def run_rule(chk, cfgname, F, pool=None):
     m = F.mono
     thorough = chk.tier == 'thorough'
@@ -231,6 +294,7 @@ def run_rule(chk, cfgname, F, pool=None):
     else:
         results = pool.map(job, [(j[0], F.dir) + j[1:] for j in jobs], chunksize=1)
     n = 0
+    results = list(results) + [delegation_by_terms(m, cfgname)]
     for out in results:
         for (kind, rule, key, d) in out:
             n += 1
